@@ -190,6 +190,24 @@ def k2(shape):
         # the ones repeated now must verify against the current chain
         blocks = st.main
         tip = len(blocks) - 1
+        # answers given DURING the story (requests in flight while blocks were undone and replaced): each must be a
+        # proof against one chain the daemon was on - header, branch and root consistent with it - or a refusal
+        import ast
+        for r in st.requests:
+            if not (r['label'].startswith('query header_proof') and r['done'] and r['error'] is None):
+                continue
+            h, cp = ast.literal_eval(r['label'][len('query header_proof '):])
+            res = r['result']
+            ok = False
+            for cand in [st.main] + list(st.old_chains):
+                if len(cand) <= cp:
+                    continue
+                root = chain.ref_merkle_root([b.hash for b in cand[:cp + 1]])
+                if res['header'] == cand[h].header.hex() and hex_str_to_hash(res['root']) == root and \
+                        chain.ref_fold(cand[h].hash, [hex_str_to_hash(x) for x in res['branch']], h) == root:
+                    ok = True
+            eng.prove(ok, 'K2: a header proof answered during a reorganisation verifies against no chain the daemon was on',
+                      {'signature': 'K2-inflight-header-proof', 'h': h, 'cp': cp})
         eng.prove(st.sim.db.state.height == tip, 'K2: the index is not at the daemon\'s height', {'signature': 'K2-height'})
         for h in range(0, tip + 1):
             for cp in range(max(h, 1), tip + 1):
@@ -244,6 +262,14 @@ def k2_shapes(tier):
     # to an unaligned length (needs a segment size > 1: a chain of 8 with reorg limit 2)
     out.append({'initial': [cbA, cbB, cbC, cbA, cbB, cbC, cbA, cbB], 'deviations': 0, 'early': False, 'reorg_limit': 2,
                 'script': [('query', 0, 'header_proof', (0, 6)), ('reorg', 2, [cbC, cbA, cbB])]})
+    # the header cache was extended by a proof; a second proof needing a further extension is in flight (its header
+    # read postponed) while a reorg truncates the cache below the start of its final segment and the new chain
+    # grows past the checkpoint again
+    out.append({'initial': [cbA, cbB, cbC, cbA, cbB, cbC, cbA, cbB, cbC], 'deviations': 1, 'early': False, 'reorg_limit': 4,
+                'filter': 'db:',
+                'script': [('query', 0, 'header_proof', (1, 6)),
+                           (('when', 'daemon:block_hex_hashes', 2), ('query', 0, 'header_proof', (1, 8))),
+                           ('reorg', 4, [cbB, cbC, cbA, cbB, cbC])]})
     # a transaction proof whose tx-hash read starts just before the undo (while the reorg range is being worked out) and
     # may be delivered (postponed) after the reorg handler cleared the caches, before the next notification
     out.append({'initial': INITIAL, 'deviations': 1, 'early': False, 'hold': True, 'reorg_limit': 4,
@@ -279,7 +305,7 @@ KERNELS = [
            encodes=['electrumx/lib/merkle.py:MerkleCache._extend_to', '_level_for', 'truncate', 'branch_and_root',
                     'electrumx/server/db.py:DB.backup_fs', 'header_branch_and_root', 'populate_header_merkle_cache',
                     'electrumx/server/session.py:SessionManager._handle_chain_reorgs', 'tx_hashes_at_blockheight'],
-           bounds='5 stories (x2 deviation budgets in thorough) on a 6..8-block start with reorg limit 4; interleaving '
+           bounds='6 stories (x2 deviation budgets in thorough) on a 6..9-block start with reorg limit 4; interleaving '
                   'as in C07',
            outside='as C07', assumptions=['as C07'], witnesses=1, split_depth=1),
 ]
